@@ -191,6 +191,8 @@ def _frac_limits(case):
             walk(t[2])
         elif t[0] == "add":
             walk(t[1]); walk(t[2])
+        elif t[0] == "try":
+            walk(t[2]); walk(t[3])
     for st in case["mech"]["states"]:
         for _, t in st["table"]:
             walk(t)
@@ -230,7 +232,8 @@ def agree(case, r, o):
 
 
 def _has_call(t):
-    return t[0] == "call" or (t[0] == "addc" and _has_call(t[2])) or (t[0] == "add" and (_has_call(t[1]) or _has_call(t[2])))
+    return (t[0] == "call" or (t[0] == "addc" and _has_call(t[2])) or (t[0] == "add" and (_has_call(t[1]) or _has_call(t[2])))
+            or (t[0] == "try" and (_has_call(t[2]) or _has_call(t[3]))))
 
 
 def nontrivial(case, r):
